@@ -356,7 +356,7 @@ func checkOneBodyPerRoute(c *Ctx, r *Report, clause string) {
 	ruleHelperShape(c, r, clause, helperShape{Fn: "(core/validators.ReceiverValidator).validateParamsCombinations",
 		AllowedCalls: []string{"core/validators/diagnostics.NewErrorDiagnostic"},
 		MustFields:   []string{"PassedIn"}, MustConsts: []string{"Body", "Form"},
-		Why:          "a second body, a body beside a form and a form beside a body are errors"})
+		Why: "a second body, a body beside a form and a form beside a body are errors"})
 }
 
 // sliceReaches: `target` is in the backward slice of v.
